@@ -344,6 +344,57 @@ def reentrant_reads(chk):
                             f"second read, remembered value, third read = {reads}, expected {want} throughout", {'case': 'reentrant', 'depth': depth})
 
 
+def second_registration_and_lifetimes(chk):
+    """(a) one function registered twice on a hook, another implementation in between / in another tier: taking back the second registration (also by leaving a
+    with block) leaves the first in place, re-evaluation computes from exactly the implementations that are registered;
+    (b) explicit callables that are created, read and dropped one after another (their addresses are re-used): each is called the way ITS signature asks for"""
+    import gc
+    from typing import Any
+    from pyroll.core.hooks import Hook, HookHost
+
+    class H(HookHost):
+        x = Hook[Any]()
+
+    def f(self):
+        return 2
+    H.x(lambda self: 1, trylast=True)
+    first = H.x(f)
+    h = H()
+    seen = [h.x]
+    with H.x(f, tryfirst=True):
+        h.reevaluate_cache()
+        seen.append(h.x)
+    h.reevaluate_cache()
+    seen.append(h.x)
+    n_left = len([g for g in H.x.functions if getattr(g, 'function', g) is f])
+    H.x.remove_function(first)
+    h.reevaluate_cache()
+    seen.append(h.x)
+    chk.cov['evaluations'] += 1
+    if seen != [2, 2, 2, 1] or n_left != 1:
+        return chk.fail('lifecycle', f"f (value 2) registered on x over a trylast default (value 1), then once more by `with H.x(f, tryfirst=True):`; values read after "
+                        f"registration, inside the block, after the block, after removing the first registration too: {seen} (expected [2, 2, 2, 1]); registrations of f "
+                        f"left after the block: {n_left} (expected 1)", {'case': 'second registration'})
+    for i in range(60):
+        h = H()
+        if i % 2:
+            h.x = lambda: 100 + i          # noqa: B023
+            want = 100 + i
+        else:
+            h.x = lambda self: 200 + i     # noqa: B023
+            want = 200 + i
+        chk.cov['evaluations'] += 1
+        try:
+            got = h.x
+        except Exception as e:      # noqa
+            got = f"{type(e).__name__}: {e}"
+        del h
+        gc.collect()
+        if got != want:
+            return chk.fail('handover-explicit', f"explicit callables created, read and dropped one after another, alternately taking no argument and the object: number {i} "
+                            f"({'no argument' if i % 2 else 'one argument'}) reads {got!r}, expected {want}", {'case': 'callable lifetimes', 'i': i})
+
+
 def run(chk):
     chk.coq.add_prop_file('C02.v')
     chk.coq.compile('C02.v', is_props=True, timeout=900)
@@ -380,6 +431,8 @@ def run(chk):
         one_shot_values(chk)
     if not chk.failures:
         reentrant_reads(chk)
+    if not chk.failures:
+        second_registration_and_lifetimes(chk)
     chk.sample(ser(cases[0]))
     chk.cov['rule'] = ("seeded random histories of read / assign (plain, falsy, None, zero- and one-argument callables) / delete / "
                        "re-evaluate / cache clear / register / remove / root evaluation / has_* on 1-3 instances of 1-3 classes with "
